@@ -387,8 +387,18 @@ func isoClasses() []isoClass {
 	}
 }
 
+// documents whose compilation fails: half way through rendering (no pictures in the carousel, image without src, a carousel
+// image on its own), in the parser, in validation
+var failingDocs = []string{
+	`<mjml><mj-body><mj-section><mj-column><mj-text font-family="Montserrat">before</mj-text><mj-carousel></mj-carousel></mj-column></mj-section></mj-body></mjml>`,
+	`<mjml><mj-body><mj-section><mj-column><mj-text font-family="Oswald">t</mj-text><mj-image/></mj-column></mj-section></mj-body></mjml>`,
+	`<mjml><mj-body><mj-section><mj-column><mj-carousel-image src="a.png"/></mj-column></mj-section></mj-body></mjml>`,
+	`<mjml><mj-body><mj-section><mj-column><mj-text>unclosed</mj-column></mj-section></mj-body></mjml>`,
+	`<mjml><mj-body><mj-section><mj-column><mj-text bogus="1" font-family="Merriweather">v</mj-text></mj-column></mj-section></mj-body></mjml>`,
+}
+
 func runC07(res *Result, tier string, seed int64, replay string) {
-	res.Rule = "for each class of head difference (mj-attributes, mj-class, mj-font, inline mj-style, mj-style, title/preview, breakpoint, body-only, validation errors, body width, group/column widths) two documents that differ only in that class are compiled concurrently by N ∈ {2,4,8,16} goroutines (with and without WithCache, Gosched perturbation), every result compared with the solo result; seeded random document sets beyond the classes; built with -race and the race reports parsed. Non-trivial = round with ≥2 different documents in flight; distinct by (class, N, cache, round)"
+	res.Rule = "for each class of head difference (mj-attributes, mj-class, mj-font, inline mj-style, mj-style, title/preview, breakpoint, body-only, validation errors, body width, group/column widths) two documents that differ only in that class are compiled concurrently by N ∈ {2,4,8,16} goroutines (with and without WithCache, Gosched perturbation; every other round right after compilations that failed while rendering, parsing or validating), every result compared with the solo result; seeded random document sets beyond the classes; built with -race and the race reports parsed. Non-trivial = round with ≥2 different documents in flight; distinct by (class, N, cache, round)"
 	rounds := 8
 	if tier == "thorough" {
 		rounds = 200
@@ -447,6 +457,13 @@ func runC07(res *Result, tier string, seed int64, replay string) {
 		for round := 0; round < rounds && !failed; round++ {
 			n := []int{2, 4, 8, 16}[round%4]
 			cache := round%3 == 1
+			// every other round starts after compilations that FAILED (while rendering, while parsing, in validation): whatever a
+			// failed compilation hands back to pools or leaves in shared tables must not reach the compilations that follow
+			if round%2 == 1 {
+				for _, bad := range failingDocs {
+					safely(func() { mjml.Render(bad) })
+				}
+			}
 			var wg sync.WaitGroup
 			var bad atomic.Value
 			start := make(chan struct{})
